@@ -229,8 +229,8 @@ pub(crate) struct MultiState {
     orphan_lines: Vec<LineType>,
     /// The count of currently visible zombie lines.
     zombie_lines_count: VisualLines,
-    /// Whether a bar was removed since the last draw, so that the lines on the screen no longer
-    /// correspond to `ordering`.
+    /// Whether a bar was removed (or reaped without keeping its lines) since the last draw, so
+    /// that the lines on the screen no longer correspond to `ordering`.
     removed_since_draw: bool,
 }
 
@@ -360,7 +360,9 @@ impl MultiState {
 
         drop(draw_state);
         let drawable = drawable.draw();
-        self.removed_since_draw = false;
+        // Zombies that are reaped below lines printed by this draw are not kept: their lines stay
+        // on the screen until the next draw clears them, like those of a removed bar.
+        self.removed_since_draw = prints_lines && !reap_indices.is_empty();
 
         for index in reap_indices {
             self.remove_idx(index);
